@@ -193,11 +193,11 @@ where
 }
 
 // SAFETY: This type is safe to send between threads, as its mutable views are guaranteed to be
-// exclusive.
+// exclusive. The views it yields are references into the world, so they must be `Send` as well.
 unsafe impl<'a, Registry, Filter, Views, Indices> Send
     for Iter<'a, Registry, Filter, Views, Indices>
 where
     Registry: registry::Registry,
-    Views: view::Views<'a>,
+    Views: view::Views<'a> + Send,
 {
 }
